@@ -25,7 +25,7 @@ KEYWORDS = ["auto", "break", "case", "char", "const", "continue", "default", "do
             "sizeof", "static", "struct", "switch", "typedef", "union", "unsigned", "void", "volatile", "while",
             "_Bool", "_Complex", "_Noreturn", "_Thread_local", "_Static_assert", "_Atomic", "_Alignof", "_Alignas",
             "_Pragma", "__int128", "offsetof"]
-LITERALS = ["0", "42", "017", "0x1F", "0b101", "42u", "42UL", "42ll", "7LLU", "1.5", ".5", "1.", "1e5", "1.5e-3f",
+LITERALS = ["1e5f", "2E-3L", "0x1p-1f", "0", "42", "017", "0x1F", "0b101", "42u", "42UL", "42ll", "7LLU", "1.5", ".5", "1.", "1e5", "1.5e-3f",
             "2.L", "0x1.8p3", "0x1p-2L", "0X.Ap1f", "'a'", "'\\n'", "'\\''", "'\\x41'", "'\\101'", "L'a'", "u8'a'",
             "u'a'", "U'a'", "'ab'", "'abcd'", '"s t"', '""', '"a\\"b"', 'L"w"', 'u8"x"', 'u"x"', 'U"x"',
             '"c:\\\\dir\\\\f.h"', '"\\q\\8"']
@@ -34,7 +34,9 @@ VOCAB = PUNCT + KEYWORDS + LITERALS + IDENTS
 GAPS = ["", " ", "\t", "\n", " \n\t ", "\n# 7 \"inc/f.h\"\n", "\n#line 12\n", "\n# 3 \"b.h\" 1 3 4\n",
         "\n#pragma omp x y\n", "\n#pragma\n", "\n  #  pragma  pack(1)\n", "\n#line 5 \"c:\\\\w\\\\p.h\"\n",
         # directives on consecutive lines
-        "\n#pragma p q\n# 9 \"after.h\"\n", "\n#pragma\n#line 4\n", "\n# 2 \"a.h\"\n#pragma z\n", "\n# 2 \"a.h\"\n# 8 \"b.h\" 2\n"]
+        "\n#pragma p q\n# 9 \"after.h\"\n", "\n#pragma\n#line 4\n", "\n# 2 \"a.h\"\n#pragma z\n", "\n# 2 \"a.h\"\n# 8 \"b.h\" 2\n",
+        # a run of directives whose last one has no file name: the file named before it stays in force
+        "\n# 10 \"inc.h\"\n#line 20\n", "\n#line 5 \"q.h\"\n# 9\n", "\n# 4 \"r.h\" 1\n# 6\n#line 8\n"]
 
 
 # what may end a text: every gap, directive lines without their newline, and directive lines with text after
@@ -42,7 +44,8 @@ GAPS = ["", " ", "\t", "\n", " \n\t ", "\n# 7 \"inc/f.h\"\n", "\n#line 12\n", "\
 TAILS = [g for g in GAPS if g] + ["\n#pragma omp x y", "\n#pragma once", "\n#pragma", "\n# 7 \"e.h\"", "\n#line 9",
                                   "\n# 3 \"f.c\" 1 @\n", "\n# 3 \"f.c\" x\n", "\n# 3 \"f.c\" 1 2 \"g\"\n",
                                   "\n#line 3 \"f.c\" /* c */\n", "\n# 3 \"f.c\" #define X\n", "\n# 3 @\n",
-                                  "\n# 3 \"f.c\" 1.5\n", "\n#line 3 \"f.c\" )\n"]
+                                  "\n# 3 \"f.c\" 1.5\n", "\n#line 3 \"f.c\" )\n",
+                                  "\n#pragma p \\", "\n#pragma p \\\n", "\n#pragma p \\\nq", "\n# 3 \"f.c\" \\"]
 
 
 def _cmp(exp):
